@@ -305,6 +305,7 @@ theorem tstep_ok {c : Cfg} (hc : c.old = false) {now qlen : Nat} {t t' : Task} {
   | wCheck k a => exact ok_wCheck (w := 0) (v := 0) (hon := true) (e := .nil) hc ok h
   | hook1 k a => exact ok_hook1 (w := 0) (v := 0) (hon := true) (e := .nil) hc ok h
   | wCas k a => exact ok_wCas (w := 0) (v := 0) (hon := true) (e := .nil) hc ok h
+  | hook4 k a => exact ok_hook4 (w := 0) (v := 0) (hon := true) (e := .nil) hc ok h
   | wWrite k a => exact ok_wWrite (w := 0) (v := 0) (hon := true) (e := .nil) hc ok h
   | wClose k a => exact ok_wClose (w := 0) (v := 0) (hon := true) (e := .nil) hc ok h
   | advance t => simp [tstep] at h
